@@ -169,6 +169,16 @@ def call(a):
   signal.signal(signal.SIGALRM, _alarm)
   signal.setitimer(signal.ITIMER_REAL, 5.0)
   try:
+    if a.get("before") is not None:
+      # the result must not depend on what was evaluated before in the same process: a
+      # near-identical spec (same text, other letter case: names are case-insensitive, delta units
+      # are not) is evaluated first and its outcome ignored
+      try:
+        list(sched_mod.SCHEDULE(a["before"], **kw))
+      except Hang:
+        raise
+      except Exception:
+        pass
     return list(sched_mod.SCHEDULE(a["spec"], **kw))
   except Hang:
     raise RuntimeError("did not return within 5 s")
@@ -509,7 +519,10 @@ def cases(tier, seed):
       for base in BASE_STARTS:
         for _ in range(reps):
           a = gen_valid(rng, n, unit, base)
-          if a is not None: yield a
+          if a is not None:
+            yield a
+            if "+" in a["spec"]:
+              yield dict(a, before=a["spec"].swapcase())
   # (D) the docstring's own format examples
   for spec, n, unit, slots in DOC_EXAMPLES:
     for start, zone in BASE_STARTS:
@@ -520,7 +533,10 @@ def cases(tier, seed):
   rng = random.Random(7919 * seed + 35)
   for _ in range(100000 if quick else 1500000):
     a = gen_valid(rng)
-    if a is not None: yield a
+    if a is not None:
+      yield a
+      if "+" in a["spec"] and rng.random() < 0.1:
+        yield dict(a, before=a["spec"].swapcase())
   # (I) invalid by construction x a few starts
   for spec in INVALID:
     for start, zone in BASE_STARTS[:3]:
